@@ -162,22 +162,29 @@ impl AliasParser {
 
     fn is_feature(&self) -> bool{ matches!(self.curr_tkn.kind, AliasTokenKind::Feature(_)) }
 
-    fn curr_token_to_modifier(&self) -> (FeatType, Mods) {
+    fn curr_token_to_modifier(&self) -> Result<(FeatType, Mods), AliasSyntaxError> {
         // returns ARG ← ('+' / '-') [a-zA-Z]+ / TONE  
-        match self.curr_tkn.kind {
+        Ok(match self.curr_tkn.kind {
             AliasTokenKind::Feature(feature) => {
                 let value = &self.curr_tkn.value;
                 match value.as_str() {
                     "+" => (feature, Mods::Binary(BinMod::Positive)),
                     "-" => (feature, Mods::Binary(BinMod::Negative)),
-                    _ if feature == FeatType::Supr(SupraType::Tone) => (feature, Mods::Number(value.parse().expect("value is ascii digit"))),
+                    _ if feature == FeatType::Supr(SupraType::Tone) => {
+                        // same reading as in rules and words: zeros are dropped, at most four digits
+                        let v = value.replace('0', "");
+                        if v.chars().count() > 4 {
+                            return Err(AliasSyntaxError::ToneTooBig(self.curr_tkn.clone()))
+                        }
+                        (feature, Mods::Number(v.parse().unwrap_or(0)))
+                    },
                     _ => {
                         unreachable!();
                     }
                 }
             },
             _ => unreachable!(),
-        }
+        })
     }
 
     fn get_param_args(&mut self) -> Result<Modifiers, AliasSyntaxError> {
@@ -192,7 +199,7 @@ impl AliasParser {
                 continue;
             }
             if self.is_feature() {
-                let (ft, mods) = self.curr_token_to_modifier();
+                let (ft, mods) = self.curr_token_to_modifier()?;
                 match ft {
                     FeatType::Node(t) => args.nodes[t as usize] = if let Mods::Binary(b) = mods {
                         Some(ModKind::Binary(b))
